@@ -30,11 +30,14 @@ GEOMETRIC = ["RRT", "RRTConnect", "RRTstar", "InformedRRTstar", "SORRTstar", "RR
              "LBKPIECE1", "PDST", "SBL", "STRIDE", "PRM", "PRMstar", "LazyPRM", "LazyPRMstar", "SPARS", "SPARStwo", "FMT",
              "BFMT", "BITstar", "ABITstar", "AITstar", "EITstar", "EIRMstar", "SST", "AnytimePathShortening",
              "pRRT", "pSBL", "CForest"]
-CONTROL = ["cRRT", "cSST", "cEST", "cKPIECE1", "cPDST"]
+CONTROL = ["cRRT", "cRRTi", "cSST", "cEST", "cKPIECE1", "cPDST"]
 MULTI = {"pRRT", "pSBL", "CForest", "AnytimePathShortening"}
 PLANNERS = GEOMETRIC + CONTROL
 
 BOXES = [((0.30, 0.0), (0.36, 0.62)), ((0.30, 0.74), (0.36, 1.0)), ((0.55, 0.35), (0.75, 0.65))]
+# the same world with the goal of query A sealed in a pocket (walls + the space boundary): only approximate solutions
+BOXES_SEALED = BOXES + [((0.76, 0.76), (0.80, 1.0)), ((0.76, 0.76), (1.0, 0.80))]
+ENVS = {"open": BOXES, "sealed": BOXES_SEALED}
 QA = ((0.1, 0.1), (0.9, 0.9))          # first query
 QB = ((0.13, 0.87), (0.91, 0.12))      # a different query (all four points distinctive)
 QSWAP = (QA[1], QA[0])
@@ -55,6 +58,11 @@ AFTER_MEASURED = {
 }
 AFTER_DEFAULT = 8
 
+HIST_ENV = {"clearsol-sealed": "sealed"}
+CLEARSOL_KS = [0, 1, 2, 5]
+SEALED_K = 250
+ROADMAP = {"PRM", "PRMstar", "LazyPRM", "LazyPRMstar", "SPARS", "SPARStwo"}   # override setProblemDefinition (clearQuery)
+
 NOSOL_STATUS = {"TIMEOUT", "INVALID_START", "INVALID_GOAL", "UNRECOGNIZED_GOAL_TYPE", "UNKNOWN", "CRASH", "ABORT"}
 
 
@@ -70,9 +78,10 @@ def fib_upto(n):
     return out
 
 
-def header(planner, seed, trace=0, dim=2):
-    s = "proto planner=%s seed=%d dim=%d trace=%d boxes 2 %d" % (planner, seed, dim, trace, len(BOXES))
-    for lo, hi in BOXES:
+def header(planner, seed, trace=0, dim=2, env="open"):
+    boxes = ENVS[env]
+    s = "proto planner=%s seed=%d dim=%d trace=%d boxes 2 %d" % (planner, seed, dim, trace, len(boxes))
+    for lo, hi in boxes:
         s += " " + " ".join(F(x) for x in lo) + " " + " ".join(F(x) for x in hi)
     return s
 
@@ -101,6 +110,13 @@ def histories(tier):
         # a FRESH problem definition object of the same query, no clear(): whatever the planner still believes about
         # the old object's solution list must not leak into the status
         "newpd-same-noclear": lambda k, K: [q("setpd", QA), "solve %d" % K, q("setpd", QA), "solve %d" % k, "solve %d" % K],
+        # a new query written into the SAME ProblemDefinition object (clearStartStates / addStartState / setGoalState /
+        # clearSolutionPaths) and announced by setProblemDefinition(same pointer)
+        "mutpd": lambda k, K: [q("setpd", QA), "solve %d" % K, q("mutpd", QB), "solve %d" % k, "solve %d" % K],
+        "mutpd-clear": lambda k, K: [q("setpd", QA), "solve %d" % K, q("mutpd", QB), "clear", "solve %d" % k, "solve %d" % K],
+        # status truthfulness after ProblemDefinition::clearSolutionPaths() between solves; goal sealed (env "sealed"):
+        # only approximate solutions exist.  k in CLEARSOL_KS only.
+        "clearsol-sealed": lambda k, K: [q("setpd", QA), "solve %d" % SEALED_K, "clearsol", "solve %d" % k, "solve %d" % SEALED_K],
         "swap": lambda k, K: [q("setpd", QA), "solve %d" % K, "clear", q("setsg", QSWAP), "solve %d" % k, "solve %d" % K],
         "invalid-start": lambda k, K: [q("setpd", QINV), "solve %d" % k, "addstart " + pt(QA[0]), "solve %d" % k,
                                        "solve %d" % K],
@@ -164,9 +180,9 @@ def contexts(ops):
             if op in ("clear", "clearQuery"):
                 dirty = False
                 has_data = False
-            if op == "setpd" and has_data:
+            if op in ("setpd", "mutpd") and has_data:
                 dirty = True
-            if op in ("clear", "clearQuery", "setpd", "setsg", "addstart", "clearsol"):
+            if op in ("clear", "clearQuery", "setpd", "setsg", "mutpd", "addstart", "clearsol"):
                 if op == "setpd" and state == "first" and not pending:
                     continue
                 pending.append(op)
@@ -200,7 +216,7 @@ def oracle(planner, ops, out, rc, err):
         if " EXC:" in o and op != "solve":
             fails.append((i, "exception", o[:200]))
             continue
-        if op in ("setpd", "setsg"):
+        if op in ("setpd", "setsg", "mutpd"):
             valid_start = kv(o).get("svalid") == "1"
         elif op == "addstart":
             valid_start = valid_start or kv(o).get("svalid") == "1"
@@ -249,6 +265,8 @@ def oracle(planner, ops, out, rc, err):
     e = kv(out[n_ops])
     if e.get("live") != "0":
         fails.append((n_ops, "leak", "live=%s states after planner, problem definition and paths were destroyed" % e.get("live")))
+    if e.get("clive", "0") != "0":
+        fails.append((n_ops, "leak-control", "clive=%s controls after planner, problem definition and paths were destroyed" % e.get("clive")))
     if e.get("badfree") != "0":
         fails.append((n_ops, "double-free", "badfree=%s" % e.get("badfree")))
     if rc != 0 and not any(f[1] == "leak" for f in fails):
@@ -269,8 +287,8 @@ class Runner:
     def __init__(self, ck, hbin):
         self.ck, self.hbin = ck, hbin
 
-    def run(self, planner, seed, ops, trace=0, timeout=240):
-        script = [header(planner, seed, trace)] + ops
+    def run(self, planner, seed, ops, trace=0, timeout=240, env="open"):
+        script = [header(planner, seed, trace, env=env)] + ops
         for attempt in range(40):
             out, rc, err = self.ck.run_bin(self.hbin, script, timeout=timeout)
             # the shared libompl cache may be mid-rebuild by another check (loader error, not a result): wait, retry
@@ -295,11 +313,12 @@ def probe_first_solution(rn, planner, seed):
 
 
 def judge_run(ck, rn, planner, seed, hname, k, K, ops, stats):
-    script, out, rc, err = rn.run(planner, seed, ops)
+    env = HIST_ENV.get(hname, "open")
+    script, out, rc, err = rn.run(planner, seed, ops, env=env)
     if out is None:
         # a process timeout is reported as "never returns" only if a second run with a longer timeout agrees
         # (LeakSanitizer symbolising thousands of leaked states on a loaded machine is slow, not a hang)
-        script, out, rc, err = rn.run(planner, seed, ops, timeout=900)
+        script, out, rc, err = rn.run(planner, seed, ops, timeout=900, env=env)
     fails = oracle(planner, ops, out, rc, err)
     ctx = contexts(ops)
     nontrivial = False
@@ -347,7 +366,86 @@ def report_fail(ck, rn, res):
 
 
 # ---------------------------------------------------------------------------------- lock-step (RRT)
-def translate_trace(ops, out):
+CTL_DRAW_KINDS = {}
+
+
+def control_draws(i, flt, j, tree):
+    """control::RRT with intermediate states: per iteration (between two P events) strip the directed control
+    sampler's scratch propagation (its first allocation ... the matching free), then read the propagated states
+    (A<id> X<src>:<id>:<bits>), an invalid last step (A<id> X.. F<id>), the goal tests of the adopted states and the
+    frees of the others.  Returns (draws, allocation events with the sampler phases removed); extends `tree` by the
+    adopted ids."""
+    out_ev = [e for e in flt[:j]]
+    draws = []
+    n = len(flt)
+    while j < n:
+        if flt[j][0] == "P":
+            j += 1
+            continue
+        k = j
+        while k < n and flt[k][0] != "P":
+            k += 1
+        it = flt[j:k]
+        if k == n:
+            # after the last P (or after the goal was reached): may still be an iteration if it ends with a satisfied goal test
+            pass
+        if not any(e[0] == "X" for e in it):
+            out_ev += [e for e in it if e[0] in "AF"]      # epilogue: path clones, frees of rmotion / xstate
+            j = k
+            continue
+        if it[0][0] != "A":
+            raise ValueError("op %d: iteration does not start with the sampler's scratch allocation" % i)
+        b = it[0][1:]
+        if ("F" + b) not in it:
+            raise ValueError("op %d: the sampler's scratch state is not freed in the same iteration" % i)
+        body = it[it.index("F" + b) + 1:]
+        valid, tail, near = [], "0", None
+        a = 0
+        while a < len(body) and body[a][0] == "A":
+            sid = body[a][1:]
+            if a + 1 >= len(body) or body[a + 1][0] != "X":
+                break                                        # not a propagated state: the epilogue's path clones
+            x = body[a + 1][1:].split(":")
+            if x[1] != sid:
+                raise ValueError("op %d: propagation into another state" % i)
+            if near is None:
+                if x[0] not in tree:
+                    raise ValueError("op %d: propagation from a state that is not in the tree" % i)
+                near = tree.index(x[0])
+            if a + 2 >= len(body) or not body[a + 2].startswith("V" + sid + ":"):
+                raise ValueError("op %d: propagated state not followed by its validity test" % i)
+            if body[a + 2].endswith(":0"):
+                if a + 3 >= len(body) or body[a + 3] != "F" + sid:
+                    raise ValueError("op %d: invalid propagated state not freed at once" % i)
+                tail = "1"
+                a += 4
+                break
+            valid.append((sid, x[2:]))
+            a += 3
+        rest = body[a:]
+        gs = [e[1:].split(":") for e in rest if e[0] == "G"]
+        if [g[0] for g in gs] != [v[0] for v in valid[:len(gs)]]:
+            raise ValueError("op %d: goal tests do not follow the propagated states in order" % i)
+        ps = []
+        for idx, (sid, st) in enumerate(valid):
+            if idx < len(gs):
+                ps.append((st, gs[idx][1], gs[idx][2]))
+                tree.append(sid)
+            else:
+                ps.append((st, "0", "0"))
+        draws.append({"near": near if near is not None else 0, "ok": "1" if gs else "0", "tail": tail, "ps": ps})
+        kind = ["tail" if tail == "1" else None, "too-short-freed-all" if (valid and not gs) else None,
+                "goal-mid-propagation" if (gs and gs[-1][1] == "1" and len(gs) < len(valid)) else None,
+                "goal-at-last-state" if (gs and gs[-1][1] == "1" and len(gs) == len(valid)) else None]
+        for kd in kind:
+            if kd:
+                CTL_DRAW_KINDS[kd] = CTL_DRAW_KINDS.get(kd, 0) + 1
+        out_ev += [e for e in body if e[0] in "AF"]
+        j = k
+    return draws, out_ev
+
+
+def translate_trace(ops, out, core="rrt"):
     """harness trace of geometric::RRT -> model script lines + the harness's own canonical lines.
     Returns (model_ops, impl_canon) or raises ValueError when the trace does not have the shape the model expects
     (that is itself a correspondence disagreement)."""
@@ -377,7 +475,7 @@ def translate_trace(ops, out):
         op = ln.split()[0]
         d = kv(main)
         log = []
-        for e in flt:
+        for e in ([] if (core == "crrt" and op == "solve") else flt):
             if e[0] == "A":
                 log.append("A%d" % canon(e[1:]))
             elif e[0] == "F":
@@ -411,37 +509,56 @@ def translate_trace(ops, out):
             pre = []
             j = 0
             while j < len(flt) and flt[j][0] != "P":
+                if flt[j][0] == "V":      # validity test of a start state (PlannerInputStates::nextStart)
+                    j += 1
+                    continue
                 if flt[j][0] != "A":
                     raise ValueError("op %d: unexpected event %s in the solve prologue" % (i, flt[j]))
                 pre.append(flt[j][1:])
                 j += 1
             draws = []
+            ds = ""
             if j < len(flt):
                 if len(pre) < 2:
                     raise ValueError("op %d: fewer than two allocations before the loop" % i)
                 tree += pre[:-2]
-                cur = None
-                while j < len(flt):
-                    e = flt[j]
-                    if e[0] == "M":
-                        f = e[1:].split(":")
-                        if f[0] not in tree:
-                            raise ValueError("op %d: checkMotion from a state that is not in the tree" % i)
-                        cur = {"near": tree.index(f[0]), "valid": f[1], "st": f[2:], "sat": "0", "dist": "0"}
-                        draws.append(cur)
-                        if f[1] == "1":
-                            if j + 2 >= len(flt) or flt[j + 1][0] != "A" or flt[j + 2][0] != "G":
-                                raise ValueError("op %d: valid motion not followed by an allocation and a goal test" % i)
-                            tree.append(flt[j + 1][1:])
-                            g = flt[j + 2][1:].split(":")
-                            if g[0] != flt[j + 1][1:]:
-                                raise ValueError("op %d: goal test on a state other than the new motion" % i)
-                            cur["sat"], cur["dist"] = g[1], g[2]
-                            j += 2
-                    j += 1
+                if core == "rrt":
+                    cur = None
+                    while j < len(flt):
+                        e = flt[j]
+                        if e[0] == "M":
+                            f = e[1:].split(":")
+                            if f[0] not in tree:
+                                raise ValueError("op %d: checkMotion from a state that is not in the tree" % i)
+                            cur = {"near": tree.index(f[0]), "valid": f[1], "st": f[2:], "sat": "0", "dist": "0"}
+                            draws.append(cur)
+                            if f[1] == "1":
+                                if j + 2 >= len(flt) or flt[j + 1][0] != "A" or flt[j + 2][0] != "G":
+                                    raise ValueError("op %d: valid motion not followed by an allocation and a goal test" % i)
+                                tree.append(flt[j + 1][1:])
+                                g = flt[j + 2][1:].split(":")
+                                if g[0] != flt[j + 1][1:]:
+                                    raise ValueError("op %d: goal test on a state other than the new motion" % i)
+                                cur["sat"], cur["dist"] = g[1], g[2]
+                                j += 2
+                        j += 1
+                    ds = " ".join("%d %s %s %s %d %s" % (x["near"], x["valid"], x["sat"], x["dist"], len(x["st"]), " ".join(x["st"])) for x in draws)
+                else:
+                    draws, flt2 = control_draws(i, flt, j, tree)
+                    ds = " ".join("%d %s %s %d %s" % (x["near"], x["ok"], x["tail"], len(x["ps"]),
+                                                      " ".join("%s %s %d %s" % (q_[1], q_[2], len(q_[0]), " ".join(q_[0])) for q_ in x["ps"]))
+                                  for x in draws)
+                    log = []
+                    for e in flt2:
+                        if e[0] == "A":
+                            log.append("A%d" % canon(e[1:]))
+                        elif e[0] == "F":
+                            log.append("F%d" % canon(e[1:]) if e[1:] != "?" else "F?")
+                    logs = ",".join(log) if log else "-"
             else:
                 tree += pre
-            ds = " ".join("%d %s %s %s %d %s" % (x["near"], x["valid"], x["sat"], x["dist"], len(x["st"]), " ".join(x["st"])) for x in draws)
+                if core == "crrt":
+                    logs = ",".join("A%d" % canon(x) for x in pre) if pre else "-"
             model_ops.append(("solve %d %d %s" % (k, len(draws), ds)).strip())
             path = main.split(" path=")[1].strip()
             impl.append("solve st=%s nsol=%s added=%s exact=%s approx=%s top=%s evals=%s tree=%d path=%s log=%s"
@@ -500,22 +617,27 @@ def canon_model(lines):
     return out
 
 
-def lockstep(ck, rn, seed, hname, k, K, ops):
-    script, out, rc, err = rn.run("RRT", seed, ops, trace=1)
+LOCKSTEP_CORE = {"RRT": ("rrt", "proto core=rrt"), "cRRTi": ("crrt", "proto core=crrt " + F(0.02))}
+
+
+def lockstep(ck, rn, seed, hname, k, K, ops, planner="RRT"):
+    core_name, mheader = LOCKSTEP_CORE[planner]
+    script, out, rc, err = rn.run(planner, seed, ops, trace=1)
     ck.traces_validated += 1
-    ck.count("lockstep:histories")
+    ck.count("lockstep:histories:" + planner)
     if out is None or len(out) <= len(ops) or rc != 0:
-        ck.report({"engine": "proto", "planner": "RRT", "clause": "crash", "ctx": "lockstep", "history": hname}, script=script,
+        ck.report({"engine": "proto", "planner": planner, "clause": "crash", "ctx": "lockstep", "history": hname}, script=script,
                   observed={"out": out, "rc": rc, "stderr": sanitizer_summary(err)}, engine="proto")
         return False
     try:
-        model_ops, impl = translate_trace(ops, out)
+        model_ops, impl = translate_trace(ops, out, core_name)
     except ValueError as e:
         ck.disagreements += 1
-        ck.report({"engine": "proto", "what": "trace shape"}, script=script, observed=out, found_input=False, engine="proto",
-                  obligation="correspondence proto: the trace of geometric::RRT does not have the loop shape of the model (%s)" % e)
+        if ck.disagreements <= 3:
+            ck.report({"engine": "proto", "what": "trace shape"}, script=script, observed=out, found_input=False, engine="proto",
+                      obligation="correspondence proto: the trace of %s does not have the loop shape of the model (%s)" % (planner, e))
         return False
-    mscript = ["proto core=rrt"] + model_ops
+    mscript = [mheader] + model_ops
     model, rc2, err2 = ck.run_bin(ck.driver(DRIVER), mscript)
     if rc2 != 0:
         raise RuntimeError("model driver failed: %s" % (err2 or "")[-500:])
@@ -530,10 +652,10 @@ def lockstep(ck, rn, seed, hname, k, K, ops):
         ck.report({"engine": "proto", "what": "model/implementation disagreement"}, script=script,
                   expected={"model_script": mscript, "model": model}, observed={"impl": impl, "first_diff": d},
                   found_input=False, engine="proto",
-                  obligation="correspondence proto: geometric::RRT vs OmplModel.Model.PlannerProto, history %s k=%s seed=%s, "
-                             "first differing op %d: impl %r model %r" % (hname, k, seed, d, impl[d][:160] if d < len(impl) else None,
+                  obligation="correspondence proto: %s vs OmplModel.Model.PlannerProto, history %s k=%s seed=%s, "
+                             "first differing op %d: impl %r model %r" % (planner, hname, k, seed, d, impl[d][:160] if d < len(impl) else None,
                                                                          model[d][:160] if d < len(model) else None))
-        ck.log("lock-step disagreement RRT %s k=%s seed=%s at op %d" % (hname, k, seed, d))
+        ck.log("lock-step disagreement %s %s k=%s seed=%s at op %d" % (planner, hname, k, seed, d))
         return False
     return True
 
@@ -614,14 +736,16 @@ def run(ck):
             ks = list(range(0, min(k1, 120) + 21)) + [k for k in fib_upto(k1 + 20) if k > 120] + ([k1 + j for j in range(-2, 21)] if k1 > 120 else [])
             ks = sorted(set(k for k in ks if k >= 0))
         K = k1 + 40 if first[p] is not None else 600
-        names = list(hs)
+        names = [n for n in hs if n != "clearsol-sealed"]
+        for k in CLEARSOL_KS:
+            jobs.append((p, seeds[p], "clearsol-sealed", k, SEALED_K, hs["clearsol-sealed"](k, SEALED_K)))
         if quick:
             # every k with the basic histories, the longer ones on a rotating subset of k
             for j, k in enumerate(ks):
                 for hn in ("resume", "clear"):
                     jobs.append((p, seeds[p], hn, k, K, hs[hn](k, K)))
                 rest = [n for n in names if n not in ("resume", "clear", "solve")]
-                for hn in (rest[j % len(rest)], rest[(j + 3) % len(rest)]):
+                for hn in (rest[j % len(rest)], rest[(j + 3) % len(rest)], rest[(j + 6) % len(rest)]):
                     jobs.append((p, seeds[p], hn, k, K, hs[hn](k, K)))
         else:
             for k in ks:
@@ -650,29 +774,32 @@ def run(ck):
     ck.extra_cov["status_distribution"] = dict(stats["status"])
     ck.extra_cov["solutions_with_invalid_motion_not_judged_here(C01)"] = stats["motion-invalid"]
 
-    # (a) lock-step for the modelled core
+    # (a) lock-step for the modelled cores (geometric RRT, control RRT with intermediate states)
     if ck.lean_ok:
-        k1 = first.get("RRT")
         r = ck.rng.fork("lockstep")
-        lseeds = [seeds["RRT"], r.below(1000)] if quick else [seeds["RRT"]] + [r.below(1000) for _ in range(5)]
         ljobs = []
-        for s in lseeds:
-            kk = probe_first_solution(rn, "RRT", s)[0] or 200
-            ks = sorted(set(fib_upto(kk) + [kk, kk + 1, kk + 2])) if quick else list(range(0, kk + 21))
-            for k in ks:
-                for hn in hs:
-                    ljobs.append((s, hn, k, kk + 40, hs[hn](k, kk + 40)))
+        lhs = {n: f for n, f in hs.items() if n not in ("mutpd", "mutpd-clear", "clearsol-sealed")}
+        for planner in LOCKSTEP_CORE:
+            lseeds = [seeds[planner], r.below(1000)] if quick else [seeds[planner]] + [r.below(1000) for _ in range(3)]
+            for s in lseeds:
+                kk = probe_first_solution(rn, planner, s)[0] or 200
+                kk = min(kk, 400)
+                ks = sorted(set(fib_upto(kk) + [kk, kk + 1, kk + 2])) if quick else list(range(0, min(kk, 150) + 21))
+                for k in ks:
+                    for hn in lhs:
+                        ljobs.append((s, hn, k, kk + 40, lhs[hn](k, kk + 40), planner))
         with ThreadPoolExecutor(workers) as ex:
-            oks = list(ex.map(lambda j: lockstep(ck, rn, *j), ljobs))
+            oks = list(ex.map(lambda j: lockstep(ck, rn, j[0], j[1], j[2], j[3], j[4], planner=j[5]), ljobs))
         ck.extra_cov["lockstep_histories"] = len(ljobs)
         ck.extra_cov["lockstep_agree"] = sum(1 for o in oks if o)
+        ck.extra_cov["lockstep_control_draw_kinds"] = dict(CTL_DRAW_KINDS)
     return 0
 
 
 def expand_corpus_op(o):
     names = {"QA": QA, "QB": QB, "QSWAP": QSWAP, "QINV": QINV}
     t = o.split()
-    if t[0] in ("setpd", "setsg") and len(t) == 2 and t[1] in names:
+    if t[0] in ("setpd", "setsg", "mutpd") and len(t) == 2 and t[1] in names:
         return q(t[0], names[t[1]])
     if t[0] == "addstart" and len(t) == 2:
         return "addstart " + pt({"A": QA[0], "B": QB[0]}[t[1]])
